@@ -1,10 +1,27 @@
-(* C01 — An applied configuration takes effect.  Statements only.
-   The general theorem (for every reachable state, schema of the family and plain
-   configuration) is not proved yet; it needs the merge and removal frame lemmas that
-   are under construction (Proofs/MergeLaws.v, Proofs/FieldSetLaws.v).  What is checked
-   here is the scenario of DESIGN.md 4.C01, evaluated inside the kernel: it exercises
-   merge, prune, add-back and the dangling-items stage together.  The property itself
-   is decided on the implementation's outcomes by the extracted checker [agrees]. *)
+(* C01 — An applied configuration takes effect.  Statements only; proofs in
+   Proofs/{RemoveFrame,EnLaws,NodeSet,KeyFields,VeqbResolve,SetCheckers,ApplyEffect}.v.
+
+   GENERAL THEOREM (C01_apply_takes_effect): for every state, schema of the family and
+   plain configuration, a successful apply returns an object that agrees with the
+   configuration ([agrees], Spec/Agree.v: every node of the configuration is present and
+   every leaf carries the configuration's value) -- whatever the live object contained and
+   whatever the other managers own, forced or not.  Setting: one API version, identity
+   converter, no ignore configuration.  Side conditions, each an invariant of the states
+   of a real history (and each executable: Proofs/SetCheckers.v):
+     keys_plain        key fields of keyed lists are scalars without defaults;
+     records_current   no record needs reconciling (unchanged schema);
+     applier_record_ok the applier's previous record is keys_closed (owning anything of a
+                       key field of a member means owning the member) and owns nothing
+                       beneath a member of atomic type;
+     owns_live_keys    another manager that owns a keyed member owns its key fields;
+     granular          the configuration's root is a map or a list -- NECESSARY: for an
+                       atomic root the statement is false (C01_needs_a_granular_root).
+   The proof describes exactly the three sets that the prune stage removes (first
+   removal, add-back passes, dangling items) and shows that none of them touches a path
+   of the configuration (frame lemma for removal).  Not covered by the theorem: several
+   API versions, ignore configurations, keys with defaults -- decided there by the
+   extracted checker [agrees] on the implementation's outcomes, as everywhere.
+   The scenario theorem of the first version is kept below. *)
 From Coq Require Import List ZArith String Bool.
 From SMD Require Import Model.Value Model.Order Model.PathElem Model.PathSet Model.Schema
   Model.Updater Spec.Resolve Spec.Agree Spec.Examples.
@@ -46,3 +63,75 @@ Theorem C01_scenario :
   end.
 Proof. vm_compute. split; reflexivity. Qed.
 Print Assumptions C01_scenario.
+
+(* ---- the general theorem ---- *)
+From Coq Require Import Arith Lia.
+From SMD Require Import Model.Walk Model.Validate Model.FieldSet Model.Remove Model.Merge Model.Compare
+  Model.Matcher Model.Reconcile Spec.PathsAsSets Spec.RefValid
+  Proofs.OrderLaws Proofs.PathSetLaws Proofs.SchemaOk Proofs.FieldSetBase Proofs.FieldSetPaths
+  Proofs.FieldSetWf Proofs.FieldSetLaws Proofs.RemoveAbsent Proofs.RemoveWf Proofs.ResolveLaws
+  Proofs.UpdaterLaws Proofs.UpdaterLaws2 Proofs.MergeLaws Proofs.MergeAgree
+  Proofs.RemoveFrame Proofs.EnLaws Proofs.NodeSet Proofs.KeyFields Proofs.VeqbResolve
+  Proofs.SetCheckers Proofs.ApplyEffect.
+Theorem C01_apply_takes_effect :
+  forall (c : config) (R : typeref -> Prop) (ver : string) (live cfg : string * value)
+           (mf : managed) (mgr : string) (force : bool) (o : option tv) 
+           (mf' : managed),
+         no_ignore c ->
+         conv_id c ->
+         schema_ok (schema_of c ver) R ->
+         family_refs (schema_of c ver) R ->
+         R (tr_of c ver) ->
+         keys_plain (schema_of c ver) R ->
+         fst live = ver ->
+         fst cfg = ver ->
+         single_version ver mf ->
+         mf_ok mf ->
+         records_current c ver mf ->
+         (forall r : mrec,
+          mf_get mgr mf = Some r -> applier_record_ok (schema_of c ver) (tr_of c ver) (mr_set r)) ->
+         (forall (m : string) (r : mrec),
+          m <> mgr ->
+          mf_get m mf = Some r ->
+          owns_live_keys (schema_of c ver) (tr_of c ver) (snd live) (mr_set r)) ->
+         wf_value (snd live) = true ->
+         wf_value (snd cfg) = true ->
+         conforms (schema_of c ver) (tr_of c ver) true (snd live) = true ->
+         conforms (schema_of c ver) (tr_of c ver) false (snd cfg) = true ->
+         plain (snd cfg) = true ->
+         granular (schema_of c ver) (tr_of c ver) (snd cfg) ->
+         apply_op c live cfg ver mf mgr force = UOk (o, mf') ->
+         agrees (schema_of c ver) (tr_of c ver) (snd cfg)
+           match o with
+           | Some t => snd t
+           | None => snd live
+           end = true.
+Proof. exact apply_takes_effect. Qed.
+Print Assumptions C01_apply_takes_effect.
+
+Theorem C01_example :
+  apply_op ex_config ("v1", ate_live) ("v1", ate_cfg) "v1" ate_mf "a" false =
+         UOk
+           (Some ("v1", ate_result),
+            [("a",
+              {|
+                mr_set :=
+                  ps_of_paths
+                    [[PEField "aa"]; [PEField "items"; PEKey [("name", VStr "z")]];
+                     [PEField "items"; PEKey [("name", VStr "z")]; PEField "name"]];
+                mr_ver := "v1";
+                mr_applied := true
+              |}); ("b", {| mr_set := ate_set_b; mr_ver := "v1"; mr_applied := false |})]) /\
+         present ex_schema ex_rt ate_live [PEField "items"; PEKey [("name", VStr "x")]] = true /\
+         present ex_schema ex_rt ate_result [PEField "items"; PEKey [("name", VStr "x")]] = false /\
+         present ex_schema ex_rt ate_result
+           [PEField "items"; PEKey [("name", VStr "y")]; PEField "vv"] = true /\
+         agrees ex_schema ex_rt ate_cfg ate_result = true.
+Proof. exact apply_takes_effect_example. Qed.
+Print Assumptions C01_example.
+
+Theorem C01_needs_a_granular_root :
+  ~ apply_takes_effect_without_root.
+Proof. exact apply_takes_effect_needs_root. Qed.
+Print Assumptions C01_needs_a_granular_root.
+
